@@ -46,15 +46,15 @@ func (t *brokerPublishQOS2Transaction) Publish(publish *pkts1.Publish) error {
 func (t *brokerPublishQOS2Transaction) Pubrel(pubrel *pkts1.Pubrel) error {
 	pubcomp := pkts1.NewPubcomp()
 	pubcomp.CopyMessageID(pubrel)
+	// The PUBREL is confirmed even if the message cannot be delivered
+	// (unknown topic ID): otherwise the gateway would retransmit it in vain.
 	topic, err := t.client.topicForPublish(t.publish)
-	if err != nil {
-		return err
+	if err == nil {
+		t.client.messageHandlers.handle(t.client, topic, t.publish)
 	}
-	t.client.messageHandlers.handle(t.client, topic, t.publish)
-	err = t.client.send(pubcomp)
-	if err != nil {
+	if err := t.client.send(pubcomp); err != nil {
 		return err
 	}
 	t.Success()
-	return nil
+	return err
 }
